@@ -40,6 +40,7 @@ var targets = []string{
 	"discoverProviderMetadata",
 	"MetadataCache.isCacheValid", "MetadataCache.Cleanup", "MetadataCache.GetMetadata",
 	"JWKCache.Cleanup", "JWKCache.GetJWKS",
+	"isValidLogLevel", "Config.Validate",
 	"SessionData.expireAccessTokenChunks", "SessionData.expireRefreshTokenChunks",
 	"SessionData.SetAccessToken", "SessionData.GetAccessToken", "SessionData.SetRefreshToken", "SessionData.GetRefreshToken",
 	"SessionData.GetCSRF", "SessionData.SetCSRF", "SessionData.GetNonce", "SessionData.SetNonce", "SessionData.GetCodeVerifier", "SessionData.SetCodeVerifier",
@@ -95,6 +96,7 @@ var externals = map[string][]string{
 	"extractClaims":       {"obj", "error"},
 	"verifySignature":     {"error"},
 	"generateSecureRandomString": {"str", "error"}, // (crypto/rand: a field of the session data, i.e. a parameter)
+	"isValidSecureURL":           {"bool"},         // (net/url parsing: a field of `Go.Config`, i.e. a parameter)
 }
 
 // externals whose arguments are not passed on (constant per instance)
@@ -105,7 +107,8 @@ var sessGetters = map[string]string{"GetAuthenticated": "bool", "GetAccessToken"
 
 // package-level variables / constants translated (name -> Lean type)
 var globals = map[string]string{"ClockSkewToleranceFuture": "dur", "ClockSkewTolerancePast": "dur", "ClockSkewTolerance": "dur", "defaultBlacklistDuration": "dur",
-	"maxCookieSize": "int", "accessTokenCookie": "str", "refreshTokenCookie": "str", "absoluteSessionTimeout": "dur", "maxNumericDate": "int"}
+	"maxCookieSize": "int", "accessTokenCookie": "str", "refreshTokenCookie": "str", "absoluteSessionTimeout": "dur", "maxNumericDate": "int",
+	"MinRateLimit": "int", "MinSessionEncryptionKeyLength": "int"}
 
 type fn struct {
 	key        string
@@ -200,6 +203,12 @@ func leanType(t string) string {
 		return "Go.MetaCache"
 	case "jcache":
 		return "Go.JwkCache"
+	case "cfg":
+		return "Go.Config"
+	case "hdrs":
+		return "(List Go.TemplatedHeader)"
+	case "hdr":
+		return "Go.TemplatedHeader"
 	case "jwksp":
 		return "(Option Go.JWKSet)"
 	case "ctx":
@@ -247,6 +256,8 @@ func goType(e ast.Expr) string {
 			return "citem"
 		case "lruEntry":
 			return "lru"
+		case "TemplatedHeader":
+			return "hdr"
 		}
 	case *ast.InterfaceType:
 		return "any"
@@ -257,6 +268,8 @@ func goType(e ast.Expr) string {
 				return "anys"
 			case "str":
 				return "strs"
+			case "hdr":
+				return "hdrs"
 			}
 		}
 	case *ast.StarExpr:
@@ -291,6 +304,8 @@ func goType(e ast.Expr) string {
 				return "mcache"
 			case "JWKCache":
 				return "jcache"
+			case "Config":
+				return "cfg"
 			case "Logger":
 				return "logger"
 			}
@@ -690,6 +705,15 @@ func (c *ctx) selector(x *ast.SelectorExpr) (string, string) {
 		return r + ".metadata", "metap"
 	case "mcache.expiresAt":
 		return r + ".expiresAt", "time"
+	case "cfg.ProviderURL", "cfg.CallbackURL", "cfg.ClientID", "cfg.ClientSecret", "cfg.SessionEncryptionKey", "cfg.LogLevel", "cfg.RevocationURL",
+		"cfg.OIDCEndSessionURL", "cfg.PostLogoutRedirectURI", "hdr.Name", "hdr.Value":
+		return r + "." + x.Sel.Name, "str"
+	case "cfg.ExcludedURLs":
+		return r + ".ExcludedURLs", "strs"
+	case "cfg.RateLimit", "cfg.RefreshGracePeriodSeconds":
+		return r + "." + x.Sel.Name, "int"
+	case "cfg.Headers":
+		return r + ".Headers", "hdrs"
 	case "jcache.jwks":
 		return r + ".jwks", "jwksp"
 	case "jcache.expiresAt":
@@ -1233,7 +1257,7 @@ func leanName(key string) string { return strings.Replace(key, ".", "_", 1) }
 
 // methodOf finds the translated method `name` of the Go type behind a type tag
 func methodOf(tag, name string) *fn {
-	goT := map[string]string{"inst": "TraefikOidc", "jwt": "JWT", "cache": "Cache", "tcache": "TokenCache", "mcache": "MetadataCache", "jcache": "JWKCache", "sdata": "SessionData"}[tag]
+	goT := map[string]string{"inst": "TraefikOidc", "jwt": "JWT", "cache": "Cache", "tcache": "TokenCache", "mcache": "MetadataCache", "jcache": "JWKCache", "cfg": "Config", "sdata": "SessionData"}[tag]
 	if goT == "" {
 		return nil
 	}
@@ -1925,8 +1949,8 @@ func (c *ctx) stmt(s ast.Stmt, k func() string) string {
 		var elemT string
 		var varExpr ast.Expr
 		switch t {
-		case "anys", "strs", "jwklist":
-			elemT = map[string]string{"anys": "any", "strs": "str", "jwklist": "jwk"}[t]
+		case "anys", "strs", "jwklist", "hdrs":
+			elemT = map[string]string{"anys": "any", "strs": "str", "jwklist": "jwk", "hdrs": "hdr"}[t]
 			if x.Key != nil {
 				if id, ok := x.Key.(*ast.Ident); !ok || id.Name != "_" {
 					if t != "strs" || x.Value == nil {
